@@ -212,3 +212,12 @@ Proof.
   exists [1; 1], (1 # 2). repeat split; try (vm_compute; congruence).
   intros a [Ha|[Ha|[]]]; rewrite <- Ha; reflexivity.
 Qed.
+
+Lemma tri_area_nonneg a b c : 0 <= tri_area a b c.
+Proof. unfold tri_area. pose proof (Qabs_nonneg (tri2 a b c)). lra. Qed.
+
+Lemma cumulative_tri_areas_sorted l tris : sorted (cumulative (map (tri_area_of l) tris)).
+Proof.
+  apply cumulative_from_sorted. intros a Ha. apply in_map_iff in Ha. destruct Ha as ([[i j] k] & E & _).
+  rewrite <- E. apply tri_area_nonneg.
+Qed.
